@@ -28,15 +28,18 @@ RULE = ('base programs from the typed generator (numbers, strings, lists, closed
         'multi-body, combines in all syntaxes, negation, implication, disjunction, '
         'functional and injectible predicates) + augmentations (Bool column and a reader '
         'of it, function over an open record, list of records / record with list / record '
-        'in record); each base program in its generated order and under 2 further '
+        'in record, a relay predicate whose column is typed only through variable-only '
+        'calls and one fact, its statements inserted at independent positions); each base program in its generated order and under 2 further '
         'permutations of statements, conjuncts (also inside combines / negations) and '
-        'disjuncts; 6 single-point corruptions per program drawn from 22 kinds (literal of '
+        'disjuncts; 6 single-point corruptions per program drawn from 23 kinds (literal of '
         'another type in a rule / in one fact, variable swapped with one of another type, '
         'arithmetic on Str, ++ / ! on Num, expression replaced by a literal of another '
         'type, added == / < / in / && across types, mixed list literal, record literal '
         'with a missing / extra field, field of a record used at another type, Sum/+= of '
         'a string, swapped call arguments, bound variable passed to a column of another '
-        'type (incl. [T] to [T\'], record to record\'), one column of every fact retyped), '
+        'type (incl. [T] to [T\'], record to record\'), one column of every fact retyped, '
+        'the fact / second call of a relay predicate `Tq(v: x) :- D(f: x); Tq(v: lit)` '
+        'retyped: a clash between two rules that flows only through the callee), '
         'each again under 3 orders; the reference checker classifies every variant: '
         'ground clash => must raise TypeErrorCaughtException (from LogicaProgram(...) or, '
         'failing that, from FormattedPredicateSql of some predicate); clean under the '
@@ -405,8 +408,31 @@ def concrete_preds(prog):
 def evaluate(prog, engine='sqlite', assume=(), run_values=False, compile_sql=True,
              v=None, cache=None):
     """One (program variant in its order, engine).  -> dict with
-    status ok | fail | skip | inconclusive, bucket, detail, labels, text, expect."""
+    status ok | fail | skip | inconclusive, bucket, detail, labels, text, expect.
+    An exception that escapes from the code under test at any point of the evaluation
+    (also while its signatures are read and rendered) is an internal error of the
+    compiler: a failure with the program recorded, never a dead worker.  An exception
+    raised by the harness alone is re-raised."""
     v = v or verdict(prog, assume)
+    try:
+        return evaluate_(prog, engine, run_values, compile_sql, v, cache)
+    except (KeyboardInterrupt, MemoryError):
+        raise
+    except BaseException as e:      # pylint: disable=broad-exception-caught
+        frame = drive.exc_frame(e)
+        if '@' not in frame:
+            raise                   # no frame of the repository involved: harness bug
+        if not os.path.isfile(os.path.join(core.repo_path(), 'logica.py')):
+            raise                   # the tree under test vanished: environment, not a verdict
+        text = model.print_program(prog, engine_line=ENGINE_LINES[engine])
+        return {'status': 'fail', 'bucket': 'internal_escaped:' + frame, 'labels': [],
+                'text': text, 'expect': v['expect'], 'v': v,
+                'detail': '%s\n--- engine %s, expected: %s\n%s' % (
+                    ''.join(traceback.format_exception(type(e), e, e.__traceback__))[-2000:],
+                    engine, v['expect'], text)}
+
+
+def evaluate_(prog, engine, run_values, compile_sql, v, cache):
     text = model.print_program(prog, engine_line=ENGINE_LINES['sqlite'])
     shown = text.replace(ENGINE_LINES['sqlite'], ENGINE_LINES[engine], 1)
     res = {'status': 'ok', 'bucket': None, 'detail': '', 'labels': [], 'text': shown,
@@ -663,6 +689,8 @@ def one_program(rng, col):
     if not kinds:
         return
     chosen = rng.sample(kinds, min(N_MUTANTS, len(kinds)))
+    if 'relay_clash' in kinds and 'relay_clash' not in chosen:
+        chosen[-1] = 'relay_clash'      # the cross-rule, through-the-callee clash: always
     while len(chosen) < N_MUTANTS:
         chosen.append(rng.choice(kinds))
     for n, kind in enumerate(chosen):
